@@ -78,18 +78,19 @@ func coqArg(t *progen.Type, v uint64) string {
 }
 
 type caseT struct {
-	name   string
-	dir    string // package directory relative to the module root (g/p000, c/<id>)
-	pkg    *progen.Package
-	src    string
-	native map[int]string
-	model  map[int]string
-	coqErr string
-	defs   map[string]bool // Definitions present in the emitted file
-	mgTr   map[string]string // MiniGo: function -> "ok" | error text (tr_func ast = goose's definition)
-	mgGo   map[int]string    // MiniGo: call -> result of the Go semantics model
-	mgOut  int               // functions outside the fragment
-	decls  []string        // names of the top-level Go declarations (catalogue)
+	name         string
+	dir          string // package directory relative to the module root (g/p000, c/<id>)
+	pkg          *progen.Package
+	src          string
+	native       map[int]string
+	model        map[int]string
+	coqErr       string
+	defs         map[string]bool   // Definitions present in the emitted file
+	mgTr         map[string]string // MiniGo: function -> "ok" | error text (tr_func ast = goose's definition)
+	mgGo         map[int]string    // MiniGo: call -> result of the Go semantics model
+	mgOut        int               // functions outside the fragment
+	declProblems []string          // order profile: problems with the sequence of definitions
+	decls        []string          // names of the top-level Go declarations (catalogue)
 }
 
 var defRe = regexp.MustCompile(`(?m)^Definition ([A-Za-z0-9_']+)`)
@@ -125,6 +126,8 @@ func main() {
 	case "minigo-neg":
 		cfg.Slices, cfg.Maps, cfg.Structs, cfg.Strings, cfg.Methods, cfg.Widths, cfg.Consts, cfg.MultiRes = false, false, false, false, false, false, false, false
 		cfg.Loops, cfg.NoBlocks, cfg.NoCompl, cfg.NoCalls, cfg.Neg = false, true, true, true, true
+	case "order":
+		cfg.Funcs = 6
 	case "inject":
 		cfg.Inject = true
 		cfg.NoCalls = true
@@ -181,7 +184,18 @@ func main() {
 		src := pkg.GoFile()
 		dir := filepath.Join(mod, "g", name)
 		os.MkdirAll(dir, 0o755)
-		os.WriteFile(filepath.Join(dir, "p.go"), []byte(src), 0o644)
+		if *profile == "order" {
+			// the same declarations in a random order, split over files
+			fnames, order := pkg.Shuffled(r.Intn)
+			files := pkg.GoFiles(fnames, order, nil)
+			src = ""
+			for _, fn := range fnames {
+				os.WriteFile(filepath.Join(dir, fn), []byte(files[fn]), 0o644)
+				src += "// ---- " + fn + "\n" + files[fn]
+			}
+		} else {
+			os.WriteFile(filepath.Join(dir, "p.go"), []byte(src), 0o644)
+		}
 		cases = append(cases, &caseT{name: name, dir: "g/" + name, pkg: pkg, src: src, native: map[int]string{}, model: map[int]string{}})
 	}
 	for _, cs := range cases {
@@ -342,6 +356,9 @@ func main() {
 			if minigo {
 				c.minigo(coqflags, out)
 			}
+			if *profile == "order" {
+				c.declProblems = declChecks(c.pkg, string(vtxt))
+			}
 		}()
 	}
 	wg.Wait()
@@ -427,6 +444,10 @@ func main() {
 				}
 			}
 			mgOutside += c.mgOut
+			for _, pr := range c.declProblems {
+				mism++
+				fmt.Fprintf(w, "MISMATCH case=%d pkg=%s kind=declarations msg=%s\n", ci, c.name, hex.EncodeToString([]byte(pr)))
+			}
 		}
 		fmt.Fprintf(w, "E\n")
 	}
@@ -498,3 +519,62 @@ func (c *caseT) minigo(coqflags []string, out string) {
 }
 
 var goRe = regexp.MustCompile(`\("GO", (\d+)%nat, "([^"]*)"\)`)
+
+var stringRe = regexp.MustCompile(`"[^"]*"`)
+var commentRe = regexp.MustCompile(`(?s)\(\*.*?\*\)`)
+var identRe = regexp.MustCompile(`[A-Za-z_][A-Za-z0-9_']*`)
+
+// declChecks: every Go declaration yields exactly one definition under its
+// documented name, names are distinct, and a definition mentions (outside
+// quotes) only same-package definitions that come before it.
+func declChecks(pkg *progen.Package, v string) []string {
+	var probs []string
+	locs := defRe.FindAllStringSubmatchIndex(v, -1)
+	count := map[string]int{}
+	pos := map[string]int{}
+	var names []string
+	for i, l := range locs {
+		n := v[l[2]:l[3]]
+		count[n]++
+		if _, ok := pos[n]; !ok {
+			pos[n] = i
+		}
+		names = append(names, n)
+	}
+	want := map[string]bool{}
+	for _, d := range pkg.Decls {
+		n := d.DeclName()
+		if want[n] {
+			probs = append(probs, "two Go declarations share the Coq name "+n)
+		}
+		want[n] = true
+		if count[n] != 1 {
+			probs = append(probs, fmt.Sprintf("declaration %s yields %d definitions", n, count[n]))
+		}
+	}
+	for n := range count {
+		if !want[n] && !strings.HasSuffix(n, "_t") {
+			probs = append(probs, "unexpected definition "+n)
+		}
+	}
+	for i, l := range locs {
+		end := len(v)
+		if i+1 < len(locs) {
+			end = locs[i+1][0]
+		}
+		body := v[l[1]:end]
+		body = commentRe.ReplaceAllString(body, " ")
+		body = stringRe.ReplaceAllString(body, " ")
+		for _, id := range identRe.FindAllString(body, -1) {
+			if !want[id] {
+				continue
+			}
+			if id == names[i] {
+				probs = append(probs, fmt.Sprintf("%s mentions itself outside its recursive binder", id))
+			} else if p, ok := pos[id]; !ok || p > i {
+				probs = append(probs, fmt.Sprintf("%s mentions %s, which is defined later (or never)", names[i], id))
+			}
+		}
+	}
+	return probs
+}
